@@ -108,3 +108,138 @@ func MapsValues[M ~map[K]V, K comparable, V any](m M, site string) iter.Seq[V] {
 		}
 	}
 }
+
+// SyncMap replaces sync.Map. Under the baton no locking is needed; what
+// matters is that Range visits the entries in an order the scenario decides
+// (sync.Map.Range iterates a built-in map underneath).
+type SyncMap struct {
+	m map[any]any
+}
+
+func (s *SyncMap) init() {
+	if s.m == nil {
+		s.m = map[any]any{}
+	}
+}
+
+func (s *SyncMap) Load(key any) (any, bool) {
+	yieldPoint()
+	v, ok := s.m[key]
+	return v, ok
+}
+
+func (s *SyncMap) Store(key, value any) {
+	yieldPoint()
+	s.init()
+	s.m[key] = value
+}
+
+func (s *SyncMap) Clear() {
+	yieldPoint()
+	s.m = nil
+}
+
+func (s *SyncMap) LoadOrStore(key, value any) (any, bool) {
+	yieldPoint()
+	s.init()
+	if v, ok := s.m[key]; ok {
+		return v, true
+	}
+	s.m[key] = value
+	return value, false
+}
+
+func (s *SyncMap) LoadAndDelete(key any) (any, bool) {
+	yieldPoint()
+	v, ok := s.m[key]
+	delete(s.m, key)
+	return v, ok
+}
+
+func (s *SyncMap) Delete(key any) {
+	yieldPoint()
+	delete(s.m, key)
+}
+
+func (s *SyncMap) Swap(key, value any) (any, bool) {
+	yieldPoint()
+	s.init()
+	v, ok := s.m[key]
+	s.m[key] = value
+	return v, ok
+}
+
+func (s *SyncMap) CompareAndSwap(key, old, new any) bool {
+	yieldPoint()
+	if v, ok := s.m[key]; ok && v == old {
+		s.m[key] = new
+		return true
+	}
+	return false
+}
+
+func (s *SyncMap) CompareAndDelete(key, old any) bool {
+	yieldPoint()
+	if v, ok := s.m[key]; ok && v == old {
+		delete(s.m, key)
+		return true
+	}
+	return false
+}
+
+func (s *SyncMap) Range(f func(key, value any) bool) {
+	yieldPoint()
+	for _, k := range orderedKeys(s.m, "sync.Map.Range") {
+		v, ok := s.m[k]
+		if !ok {
+			continue
+		}
+		if !f(k, v) {
+			return
+		}
+	}
+}
+
+// Pool replaces sync.Pool. The real pool hands back an arbitrary pooled
+// object or a fresh one, and forgets everything at a garbage collection: all
+// of that is a choice here, drawn from the scheduler stream (most recently
+// put, oldest, or New although the pool is not empty).
+type Pool struct {
+	New   func() any
+	items []any
+}
+
+func (p *Pool) Put(x any) {
+	if x == nil {
+		return
+	}
+	p.items = append(p.items, x)
+}
+
+func (p *Pool) Get() any {
+	if n := len(p.items); n > 0 {
+		pick := n - 1
+		switch step.SchedPolicy {
+		case "", "run-to-block":
+		default:
+			switch schedRNG.intn(4) {
+			case 0:
+				pick = 0
+			case 1:
+				pick = -1 // as after a garbage collection
+			case 2:
+				pick = schedRNG.intn(n)
+			}
+		}
+		if pick >= 0 {
+			x := p.items[pick]
+			p.items = append(p.items[:pick], p.items[pick+1:]...)
+			return x
+		}
+		p.items = nil
+	}
+	if p.New != nil {
+		return p.New()
+	}
+	return nil
+}
